@@ -2,6 +2,7 @@ fn check_type(
     crate_name: &CrateName,
     serde_renamed: &RenamedTypes,
     import_types: &HashSet<ImportedType>,
+    generic_types: &[String],
     ty: &mut RustType,
 ) {
     debug!("checking type: {ty:?}");
@@ -13,29 +14,33 @@ fn check_type(
                 *id = renamed.to_owned();
             }
             for ty in parameters {
-                check_type(crate_name, serde_renamed, import_types, ty);
+                check_type(crate_name, serde_renamed, import_types, generic_types, ty);
             }
         }
         RustType::Special(s) => match s {
             SpecialRustType::Vec(ty) => {
-                check_type(crate_name, serde_renamed, import_types, ty);
+                check_type(crate_name, serde_renamed, import_types, generic_types, ty);
             }
             SpecialRustType::Array(ty, _) => {
-                check_type(crate_name, serde_renamed, import_types, ty);
+                check_type(crate_name, serde_renamed, import_types, generic_types, ty);
             }
             SpecialRustType::Slice(ty) => {
-                check_type(crate_name, serde_renamed, import_types, ty);
+                check_type(crate_name, serde_renamed, import_types, generic_types, ty);
             }
             SpecialRustType::HashMap(ty1, ty2) => {
-                check_type(crate_name, serde_renamed, import_types, ty1);
-                check_type(crate_name, serde_renamed, import_types, ty2);
+                check_type(crate_name, serde_renamed, import_types, generic_types, ty1);
+                check_type(crate_name, serde_renamed, import_types, generic_types, ty2);
             }
             SpecialRustType::Option(ty) => {
-                check_type(crate_name, serde_renamed, import_types, ty);
+                check_type(crate_name, serde_renamed, import_types, generic_types, ty);
             }
             _ => (),
         },
         RustType::Simple { id } => {
+            // A generic parameter of the item is not a reference to a type, whatever it is called.
+            if generic_types.contains(id) {
+                return;
+            }
             debug!("{crate_name} looking up original name {id}");
 
             if let Some(renamed) = resolve_renamed(crate_name, serde_renamed, import_types, id) {
